@@ -687,7 +687,11 @@ impl Condition for LogicalCondition {
         match self.operation {
             LogicalOp::And => self.conditions.iter().all(|c| c.evaluate(values)),
             LogicalOp::Or => self.conditions.iter().any(|c| c.evaluate(values)),
-            LogicalOp::Not => !self.conditions[0].evaluate(values),
+            LogicalOp::Not => {
+                // an inner condition the builder could not express leaves the list empty:
+                // treat it like the empty conjunction (true), so NOT selects nothing
+                !self.conditions.first().map_or(true, |c| c.evaluate(values))
+            }
         }
     }
 
@@ -701,7 +705,11 @@ impl Condition for LogicalCondition {
                 .conditions
                 .iter()
                 .any(|c| c.evaluate_at(accessor, index)),
-            LogicalOp::Not => !self.conditions[0].evaluate_at(accessor, index),
+            LogicalOp::Not => {
+                // an inner condition the builder could not express leaves the list empty:
+                // treat it like the empty conjunction (true), so NOT selects nothing
+                !self.conditions.first().map_or(true, |c| c.evaluate_at(accessor, index))
+            }
         }
     }
 
@@ -715,7 +723,11 @@ impl Condition for LogicalCondition {
                 .conditions
                 .iter()
                 .any(|c| c.evaluate_event_direct(accessor)),
-            LogicalOp::Not => !self.conditions[0].evaluate_event_direct(accessor),
+            LogicalOp::Not => {
+                // an inner condition the builder could not express leaves the list empty:
+                // treat it like the empty conjunction (true), so NOT selects nothing
+                !self.conditions.first().map_or(true, |c| c.evaluate_event_direct(accessor))
+            }
         }
     }
 
